@@ -109,7 +109,23 @@ func doShrink(t *testing.T, job *Job) {
 				progress = true
 			}
 		}
-		// 2. drop faults
+		// 2. drop faults: in chunks first (long fault plans would otherwise use up the budget one
+		// entry at a time), then singly
+		for chunk := len(best.Faults) / 2; chunk >= 2 && !exhausted(); chunk /= 2 {
+			for from := 0; from < len(best.Faults) && !exhausted(); {
+				to := from + chunk
+				if to > len(best.Faults) {
+					to = len(best.Faults)
+				}
+				c := best.Clone()
+				c.Faults = append(append([]sim.Fault{}, c.Faults[:from]...), c.Faults[to:]...)
+				if try(c, bestTape) {
+					progress = true // best is shorter now: the same offset names the next chunk
+				} else {
+					from = to
+				}
+			}
+		}
 		for i := len(best.Faults) - 1; i >= 0 && !exhausted(); i-- {
 			if i >= len(best.Faults) {
 				continue
